@@ -97,24 +97,29 @@ def generate(rng, tier, index):
     # rdflib-parsed sources (url) relabel blank nodes on every pass (C08's stated exception): no bnodes there
     sources = ["raw", "file", "rdflib"] + ([] if bnodes else ["url"]) + (["endpoint", "endpoint"] if endpoint_ok else [])
     n_sh = 2 if rng.random() < 0.4 else 1
+    if tier == "thorough" and rng.random() < 0.15:
+        n_sh = 3
     pressure = 0.25
     shapers = [_gen_shaper(rng, triples, rng.choice(sources), pressure, bnodes, tp) for _ in range(n_sh)]
     share = {}
-    if n_sh == 2:
+    if n_sh >= 2:
         if rng.random() < 0.6:
             share["namespaces_dict"] = True
-            shapers[1]["ns"] = shapers[0]["ns"]
+            for sp in shapers[1:]:
+                sp["ns"] = shapers[0]["ns"]
         if "target_classes" in shapers[0]["target"] and rng.random() < 0.4:
             share["target_classes"] = True
-            shapers[1]["target"] = copy.deepcopy(shapers[0]["target"])
+            for sp in shapers[1:]:
+                sp["target"] = copy.deepcopy(shapers[0]["target"])
         if rng.random() < 0.3:
             # both Shapers read the very same rdflib.Graph object (the fresh model gets a new one)
             share["rdflib_graph"] = True
-            shapers[0]["source"] = shapers[1]["source"] = "rdflib"
+            for sp in shapers:
+                sp["source"] = "rdflib"
     seqs = []
     for i in range(n_sh):
         t0 = rng.choice(THRESHOLDS)
-        k = rng.randint(1, 4) if tier == "thorough" else rng.randint(1, 3)
+        k = rng.randint(1, 5) if tier == "thorough" else rng.randint(1, 3)
         calls = []
         for _ in range(k):
             c = _gen_call(rng, t0)
@@ -133,9 +138,11 @@ def generate(rng, tier, index):
             created.add(i)
             continue
         ops.append(pending[i].pop(0))
-    if n_sh == 2 and 1 not in created:
-        ops.append({"op": "new", "i": 1})
-    if n_sh == 2 and rng.random() < 0.3:
+    for j in range(1, n_sh):
+        if j not in created:
+            ops.append({"op": "new", "i": j})
+            created.add(j)
+    if n_sh >= 2 and rng.random() < 0.3:
         # construct the second Shaper between two calls of the first and call Shaper 0 again
         ops.append({"op": "shex", "i": 0, "format": SHEXC, "sink": "string", "threshold": seqs[0][0].get("threshold", 0)})
     if faulty:
